@@ -9,6 +9,7 @@ import (
 	"fmt"
 	"strings"
 	"testing"
+	"unicode/utf8"
 
 	"github.com/theQRL/go-qrllib/dilithium"
 	"github.com/theQRL/go-qrllib/qrllib-js/dilithiumjs"
@@ -39,6 +40,36 @@ type wcase struct {
 	Sig   string `json:"sig,omitempty"`
 	PK    string `json:"pk,omitempty"`
 	Addr  string `json:"addr,omitempty"`
+}
+
+// strings that are not valid UTF-8 (a hex digit replaced by a byte >= 0x80) travel as hex in replay files
+func (c wcase) MarshalJSON() ([]byte, error) {
+	type plain wcase
+	if utf8.ValidString(c.Sig) && utf8.ValidString(c.PK) && utf8.ValidString(c.Addr) {
+		return json.Marshal(plain(c))
+	}
+	raw := [3]pu.HB{pu.HB(c.Sig), pu.HB(c.PK), pu.HB(c.Addr)}
+	c.Sig, c.PK, c.Addr = "", "", ""
+	return json.Marshal(struct {
+		plain
+		Raw [3]pu.HB `json:"sig_pk_addr_hex_of_raw_bytes"`
+	}{plain(c), raw})
+}
+
+func (c *wcase) UnmarshalJSON(d []byte) error {
+	type plain wcase
+	var v struct {
+		plain
+		Raw *[3]pu.HB `json:"sig_pk_addr_hex_of_raw_bytes"`
+	}
+	if err := json.Unmarshal(d, &v); err != nil {
+		return err
+	}
+	*c = wcase(v.plain)
+	if v.Raw != nil {
+		c.Sig, c.PK, c.Addr = string(v.Raw[0]), string(v.Raw[1]), string(v.Raw[2])
+	}
+	return nil
 }
 
 // parseHex is an independent reading of "well-formed hexadecimal, optional 0x prefix".
@@ -332,7 +363,7 @@ func spoil(t *rapid.T, s string, label string) (string, string) {
 // hex arguments (start with "0x", be all hex digits) without being one: the wrappers must not interpret it.
 func hexLikeMsg(t *rapid.T) []byte {
 	m := pu.Msg(100).Draw(t, "msg")
-	switch rapid.IntRange(0, 7).Draw(t, "msgShape") {
+	switch rapid.IntRange(0, 8).Draw(t, "msgShape") {
 	case 0:
 		return append([]byte("0x"), m...)
 	case 1:
@@ -341,6 +372,8 @@ func hexLikeMsg(t *rapid.T) []byte {
 		return []byte("0x")
 	case 3:
 		return []byte(hex.EncodeToString(m))
+	case 4:
+		return []byte{} // the empty message (an omitted JavaScript argument looks the same)
 	}
 	return m
 }
